@@ -6,7 +6,7 @@ oracle: the REAL hextb executable (3 Verilator seeds, --max-cycles) against the 
         the working tree: stdout after hextb's load banner, exit status, console input consumed (through the two
         harnesses that link hextb.cpp's run() / hexsim's Processor) -- and both against the extracted ISA run.
         Only (binary, input) pairs whose ISA run the monitor accepts (TbModel.wb_mon: defined, in range, read-safe, never
-        reads a word the image did not initialise or the run did not write, first instruction not a system call) and that
+        reads a word the image did not initialise or the run did not write) and that
         exit are judged; the others are run, counted and reported."""
 import glob, json, os, sys
 sys.path.insert(0, os.path.dirname(os.path.abspath(__file__)))
@@ -48,12 +48,11 @@ def main():
                               'TbModel.v hand model of hextb.cpp (tied by ./check C13), SimModel.v hand model of hexsim.hpp (tied by ./check C02)',
                               'generated RTL (tools/vl2coq.py, validated by ./check C03) and RtlSem.v',
                               'ExtrOcamlBasic extraction + ocaml/tbdrv.ml (ISA monitor)', 'Verilator 5.006, g++ 12; harness/tb_harness.cpp, harness/sim_harness.cpp']
-    ck.assumptions = ['judged: ISA run exits, is defined, stays below byte address 800000, READ does not overwrite its own SVC, first instruction is not a system call, '
+    ck.assumptions = ['judged: ISA run exits, is defined, stays below byte address 800000, READ does not overwrite its own SVC, '
                       'and no word outside the header-announced image is read before it is written (the two loaders differ beyond the image; RTL memory is random there)',
-                      'KNOWN FINDINGS (known_findings.json), both inside the literal quantifier and exhibited on every run by hand-assembled binaries: '
-                      'kind read-overwrites-own-svc (a READ whose result slot is the word holding its own SVC: hextb retires the overwritten byte) and '
-                      'kind first-instruction-svc (the request of the instruction at byte 0 is never sampled by hextb); they are the hypotheses read_safe / '
-                      '"first instruction is not a system call" of C06_tb_equals_sim',
+                      'KNOWN FINDING (known_findings.json, kind read-overwrites-own-svc), inside the literal quantifier and exhibited on every run by a hand-assembled binary: '
+                      'a READ whose result slot is the word holding its own SVC -- hextb retires the overwritten byte (hypothesis read clause of step_safe in C06_tb_equals_sim)',
+                      'binaries whose first instruction is a system call are ordinary judged inputs since the repair of hextb.cpp (known_findings.json: fixed, kind first-instruction-svc)',
                       'file streams (>= 256) are not exercised (no simin/simout files in the scratch directory); console only',
                       'hextb is run with 3 Verilator seeds per case; power-on independence itself is C13']
     status = gen_rtl.generate_all()
@@ -102,6 +101,22 @@ def main():
             rc, o, e = run3([hexasm, src, '-o', b], cwd=d, timeout=120)
             if rc == 0 and os.path.exists(b):
                 progs.append(('tests/asm/' + os.path.basename(src), b, std_inputs[:2] + [rand_input()]))
+        for aname, asrc, ainps in tbcommon.asm_programs():
+            sd = os.path.join(d, 'a%d' % nx)
+            nx += 1
+            os.makedirs(sd)
+            open(os.path.join(sd, 'p.S'), 'w').write(asrc)
+            rc, o, e = run3([hexasm, 'p.S', '-o', 'p.bin'], cwd=sd, timeout=120)
+            if rc == 0 and os.path.exists(os.path.join(sd, 'p.bin')):
+                progs.append(('asm/' + aname, os.path.join(sd, 'p.bin'), list(ainps)))
+            else:
+                ck.broken.append('hexasm rejects the hand-written program %s: %s' % (aname, (o + e)[-200:]))
+        # hand-assembled images whose first instruction is a system call (repaired shape: ordinary judged inputs now)
+        for sname, (simg, sinp, kind, _, _) in sorted(tbcommon.known_shapes().items()):
+            if kind == 'first-instruction-svc':
+                b = os.path.join(d, 'first-%s.bin' % sname)
+                open(b, 'wb').write(simg)
+                progs.append(('image/' + sname, b, [sinp]))
         try:
             import xgen
             shapes = xgen.directed()
@@ -184,12 +199,12 @@ def main():
                                   'replay_cmd': './check C06 --replay <this file>'}, tags={'kind': 'tb-vs-sim'})
             elif len(ck.cov['samples']) < 6 and dist['judged'] % 9 == 1:
                 ck.sample({'program': name, 'input': list(inp), 'steps': mon['steps'], 'exit': sim['rc'], 'stdout': sim['out'].decode('latin1')[:60], 'consumed': sim['consumed']})
-    # ---- the two known-finding shapes inside the literal quantifier (judged; reported through known_findings.json)
+    # ---- the known-finding shape inside the literal quantifier (judged; reported through known_findings.json)
     exhibits = []
     if not ck.replay_arg:
         for sname, (simg, sinp, kind, sim_does, tb_does) in sorted(tbcommon.known_shapes().items()):
-            if sname == 'read-own-svc-wrap':
-                continue                      # never exits (C03 exhibits it clock by clock)
+            if sname == 'read-own-svc-wrap' or kind != 'read-overwrites-own-svc':
+                continue                      # (the wrap variant never exits: C03 exhibits it clock by clock; first-instruction images are judged above)
             b = os.path.join(d, 'shape-%s.bin' % sname)
             open(b, 'wb').write(simg)
             ip = os.path.join(d, 'shape.in')
